@@ -36,3 +36,10 @@ Example C05_nonvacuous :
   snd (p_run p_init [PFeed [144; 60]; PPending; PFeedByte 64; PFeed [248; 128; 1]; PPending; PGet; PFeedByte 2; PIterAll; PGet]) =
   [ONone; ONum 0; ONone; ONone; ONum 2; OGet (Some (NoteOn 0 60 64)); ONone; OMsgs [Clock; NoteOff 0 1 2]; OGet None].
 Proof. reflexivity. Qed.
+
+(* with one iterator kept alive across feeds, get_message calls and other iterations, in ANY history of any length: retrieved ++ queued =
+   parse_all(everything fed) - nothing lost, duplicated or reordered *)
+Theorem C05_live_iterator : forall ops, Forall byte (ifed ops) ->
+  exists ms, parse_all (ifed ops) = Ok ms /\ ms = retrieved (snd (i_run i_init ops)) ++ p_q (i_p (fst (i_run i_init ops))).
+Proof. exact live_iterator_fifo. Qed.
+Print Assumptions C05_live_iterator.
